@@ -305,6 +305,19 @@ impl Scenario for Clones {
             Err(e) => return Verdict::Skip(format!("archive does not open: {}", zerr_pub(&e))),
         };
         let h = c.scripts.len();
+        // handles are clones of the archive - or, in half of the cases, each a clone of the previous clone
+        // ("clones of clones"); in a quarter of the cases the original is gone before any handle runs
+        let chain = c.sched_seed & 1 == 1;
+        let mut handles: Vec<ZipArchive<SimDisk>> = vec![];
+        for k in 0..h {
+            let a = if chain && k > 0 { handles[k - 1].clone() } else { base.clone() };
+            handles.push(a);
+        }
+        if chain {
+            ctx.probe("handles_were_clones_of_clones");
+        }
+        let base = if c.sched_seed & 6 == 6 { drop(base); None } else { Some(base) };
+        let mut handles = handles.into_iter();
         let mut go_tx: Vec<mpsc::Sender<()>> = vec![];
         let (done_tx, done_rx) = mpsc::channel::<(usize, bool)>(); // (handle, finished)
         let mut joins = vec![];
@@ -312,7 +325,7 @@ impl Scenario for Clones {
             let (tx, rx) = mpsc::channel::<()>();
             go_tx.push(tx);
             // every clone gets its own cloned reader (own cursor, own policy engine instance)
-            let mut ar = ForceSend(base.clone());
+            let mut ar = ForceSend(handles.next().expect("one handle per script"));
             let sc = sc.clone();
             let names = names.clone();
             let done = done_tx.clone();
@@ -519,6 +532,7 @@ impl Scenario for ClonesShuttle {
         let out2 = outcome.clone();
         let scripts = c.scripts.clone();
         let faults = c.faults.clone();
+        let chain = c.sched_seed & 1 == 1;
         let body = move || {
             let hook: Arc<dyn Fn() + Send + Sync> = Arc::new(|| shuttle::thread::sleep(std::time::Duration::from_secs(0)));
             let mk = || {
@@ -547,8 +561,14 @@ impl Scenario for ClonesShuttle {
                 Err(_) => return,
             };
             let mut hs = vec![];
+            let mut handles: Vec<ZipArchive<SimDisk>> = vec![];
+            for k in 0..scripts.len() {
+                let a = if chain && k > 0 { handles[k - 1].clone() } else { base.clone() };
+                handles.push(a);
+            }
+            let mut handles = handles.into_iter();
             for sc in scripts.iter() {
-                let ar = ForceSend(base.clone());
+                let ar = ForceSend(handles.next().expect("one handle per script"));
                 let sc = sc.clone();
                 let names = names.clone();
                 hs.push(shuttle::thread::spawn(move || {
